@@ -224,12 +224,12 @@ Definition gen_and2 (m0 m1 : gm) : gm := %s.
     os.makedirs(os.path.dirname(out_path), exist_ok=True)
     with open(out_path, 'w') as f:
         f.write(text)
-    return out_path
+    return (out_path, 6, text.count('\n'))
 
 
 if __name__ == '__main__':
     try:
-        print(generate())
+        print(generate(sys.argv[1] if len(sys.argv) > 1 else None))
     except Untranslatable as e:
         print('UNTRANSLATABLE:', e)
         sys.exit(3)
